@@ -312,8 +312,14 @@ func (node *Node) clone(tree *MutableTree) (*Node, error) {
 			return nil, err
 		}
 		verifPoint("clone:children-fetched")
-		node.leftNode = nil
-		node.rightNode = nil
+		// persisted nodes are shared with concurrent readers of committed versions and their
+		// child pointers are already nil: do not write to them needlessly
+		if node.leftNode != nil {
+			node.leftNode = nil
+		}
+		if node.rightNode != nil {
+			node.rightNode = nil
+		}
 	}
 
 	return &Node{
